@@ -155,8 +155,12 @@ package parse
 //@ func lexBeginTag
 //@   like stateFn
 
+// C01: a comparison character takes a second character only when the two form
+// an operator (<=, >=, ==, !=): `$a<-1` is `$a < -1`. Only a lone character can
+// be reported as an unknown symbol.
 //@ func lexInsideTag
 //@   like stateFn
+//@   at call (*lexer).errorf#0 assert[only-a-lone-character-can-be-an-unknown-symbol;C01] l.pos == old(l.pos) + 1
 
 // C01: '-' is the binary operator exactly when the previous token can end an
 // operand (a literal, an identifier or data reference, a closing bracket or
@@ -509,9 +513,13 @@ package parse
 //@   measure rem(t), 1
 //@   ensures result != nil
 
+// C01: `c ? a : b` is complete after its else-arm; a colon that follows belongs
+// to an enclosing ternary (`$a ? $b ? 1 : 2 : 3`), so parseTernary never
+// continues with that colon itself (nesting goes through parseExpr only).
 //@ func (*tree).parseTernary
 //@   like exprFn
 //@   measure rem(t), 3
+//@   at call (*tree).parseTernary#* forbid[a-colon-after-the-else-arm-belongs-to-the-enclosing-ternary;C01] false
 //@   requires cond != nil
 //@   ensures result != nil
 
